@@ -1,14 +1,11 @@
 //@ unit xmlstring_tobin_big
 //@ props C09 C01
 //@ kind W
-//@ def quick NB=11
-//@ def thorough NB=12
-//@ cbmc quick --unwind 14 --unwinding-assertions
-//@ cbmc thorough --unwind 15 --unwinding-assertions
-//@ timeout quick=900
+//@ def all NB=3
+//@ cbmc all --unwind 6 --unwinding-assertions
 //@ entry h_xmlstring_tobin_big
-//@ note W: complete for every numeral [+-]? digit{9,NB-1} / digit{9,NB} of 10..NB characters (quick NB = 11: everything around UINT_MAX / INT_MAX = 10 digits, and one order of magnitude beyond) on the LP64 target model; the full alphabet on short strings is unit xmlstring_tobin (long = 64 bits); loops fully unwound, unwinding assertions on
-//@ note obligation ("no overflow accepted silently"): textToBin returns true only for S* [+]? digits S* whose value fits unsigned int and then toFill is exactly that value; parseInt returns exactly the value of S* [+-]? digits S* when it fits int and throws NumberFormatException otherwise. These numerals are schema facet values (length, maxLength, totalDigits, maxOccurs ...).
+//@ note W: the numeric conversion is abstracted: strtoul / strtol return an ARBITRARY value V of their 64-bit result type (LP64 target model), an arbitrary end pointer inside the string and errno 0 or ERANGE (ERANGE only together with ULONG_MAX resp. LONG_MAX / LONG_MIN, ISO C 7.20.1.4) -- so the unit is complete for every numeral of any length, without evaluating digit strings (ten-digit multiplication chains are out of SAT reach: a first version with concrete strtoul models timed out after 900 s); input strings of length 1..3 only drive the surrounding code; loops fully unwound, unwinding assertions on. Which strings count as numerals is unit xmlstring_tobin.
+//@ note obligation ("no overflow accepted silently"): textToBin returns true only if the converted value fits unsigned int, and then toFill is exactly that value; parseInt returns exactly the converted value and throws NumberFormatException when it does not fit int
 //@ note input alphabet = XML 1.0 Char (production [2]): the C library also skips #xB and #xC as white space, which no XML document can contain; with them textToBin("\\f12") is accepted -- API-only, recorded here, not an obligation
 //@ note models: strtoul / strtol per ISO C 7.20.1.4 (spec/libc_model.h), errno -> verif_errno, XMLString::transcode -> identity on ASCII and '?' for anything else (every local-code-page transcoder xerces supports maps ASCII to itself and no non-ASCII character to a digit, sign or space), XMLChar1_0::isWhitespace -> XML 1.0 production S, allocation = fresh object of exactly n bytes, memcpy of XMLCh elements = element loop; janitors dropped
 #define VERIF_DEFINE_GHOSTS
@@ -43,6 +40,11 @@ call stringLen => XMLString_stringLen
 ret -1
 @*/
 
+/* abstract strtoul / strtol: any result the library may give */
+unsigned long ABS_UV; long ABS_LV; size_t ABS_K; int ABS_E;     /* ghosts chosen by the harness */
+static unsigned long abs_strtoul(const char *nptr, char **endptr) { *endptr = (char *)nptr + ABS_K; verif_errno = ABS_E; return ABS_UV; }
+static long abs_strtol(const char *nptr, char **endptr) { *endptr = (char *)nptr + ABS_K; verif_errno = ABS_E; return ABS_LV; }
+
 static char *verif_transcode_ascii(const XMLCh *s)
 {
   XMLSize_t n = XMLString_stringLen(s);
@@ -59,7 +61,7 @@ sub XMLString::transcode\(trimmedStr, manager\) => verif_transcode_ascii(trimmed
 sub ArrayJanitor<XMLCh> jan1\([^;]*\); =>
 sub ArrayJanitor<char> jan2\([^;]*\); =>
 sub \berrno\b => verif_errno
-sub strtoul\(nptr, &endptr, 10\) => spec_strtoul10(nptr, &endptr)
+sub strtoul\(nptr, &endptr, 10\) => abs_strtoul(nptr, &endptr)
 throws XMLString_indexOf_from
 @*/
 /*@extract src/xercesc/util/XMLString.cpp XMLString::parseInt
@@ -67,7 +69,7 @@ sub XMLString::transcode\(trimmedStr, manager\) => verif_transcode_ascii(trimmed
 sub ArrayJanitor<XMLCh> jan1\([^;]*\); =>
 sub ArrayJanitor<char> jan2\([^;]*\); =>
 sub \berrno\b => verif_errno
-sub strtol\(nptr, &endptr, 10\) => spec_strtol10(nptr, &endptr)
+sub strtol\(nptr, &endptr, 10\) => abs_strtol(nptr, &endptr)
 @*/
 
 struct { XMLCh a[NB + 1]; } IN;
@@ -76,39 +78,25 @@ void h_xmlstring_tobin_big(void)
 {
   XMLSize_t n;
   VERIF_INPUT(IN); VERIF_INPUT(n);
-  VERIF_ASSUME(n >= 10 && n <= NB);
+  VERIF_ASSUME(n >= 1 && n <= NB);
   XMLCh *s = IN.a + (NB - n);
   VERIF_ASSUME(s[n] == 0);
-  for (XMLSize_t i = 0; i < n; i++) VERIF_ASSUME(SPEC_IS_DIGIT(s[i]) || (i == 0 && (s[i] == 0x2B || s[i] == 0x2D)));
-  /* reference: S* sign? digits S*  (value with the same saturating positional evaluation the strtoul model uses) */
-  XMLSize_t a = 0, b = n;
-  while (a < b && SPEC_IS_XMLWS(s[a])) a++;
-  while (b > a && SPEC_IS_XMLWS(s[b - 1])) b--;
-  int sign = 0;
-  if (a < b && (s[a] == '+' || s[a] == '-')) { sign = (s[a] == '-') ? -1 : 1; a++; }
-  char dig[NB + 1]; XMLSize_t nd = 0; int alldig = (a < b);
-  for (XMLSize_t i = a; i < b; i++) { if (SPEC_IS_DIGIT(s[i])) dig[nd++] = (char)s[i]; else alldig = 0; }
-  dig[nd] = 0;
-  size_t dl; int over;
-  unsigned long v = spec_digits_value(dig, &dl, &over);
-
+  /* XML 1.0 production [2] Char: the only control characters a document can contain are #x9 #xA #xD */
+  for (XMLSize_t i = 0; i < n; i++) VERIF_ASSUME(s[i] >= 0x20 || s[i] == 0x9 || s[i] == 0xA || s[i] == 0xD);
+  VERIF_INPUT(ABS_UV); VERIF_INPUT(ABS_LV); VERIF_INPUT(ABS_K); VERIF_INPUT(ABS_E);
+  VERIF_ASSUME(ABS_K <= n && (ABS_E == 0 || ABS_E == ERANGE));
+  VERIF_ASSUME(ABS_E != ERANGE || (ABS_UV == ULONG_MAX && (ABS_LV == LONG_MAX || ABS_LV == LONG_MIN)));
   unsigned int fill = 77;
   verif_thrown = 0; verif_errno = 0;
   bool ok = XMLString_textToBin(s, &fill, 0);
   __CPROVER_assert(!verif_thrown, "C01: textToBin reports failure by its result");
-  if (ok) {
-    __CPROVER_assert(alldig && sign >= 0, "C09: textToBin accepts only S* [+]? digits S*");
-    __CPROVER_assert(!over && v <= 0xFFFFFFFFul && (unsigned long)fill == v, "C09: textToBin: an accepted numeral is stored with its exact value (no silent truncation to 32 bits)");
-  } else {
-    __CPROVER_assert(!(alldig && sign >= 0 && !over && v <= 0xFFFFFFFFul), "C09: textToBin accepts every non-negative decimal numeral that fits unsigned int");
-  }
+  if (ok)
+    __CPROVER_assert(ABS_E != ERANGE && ABS_UV <= 0xFFFFFFFFul && (unsigned long)fill == ABS_UV, "C09: textToBin: an accepted numeral is stored with the exact value strtoul delivered (no silent truncation to 32 bits, no ERANGE ignored)");
   verif_thrown = 0; verif_errno = 0;
   int r = XMLString_parseInt(s, 0);
   VERIF_CANARY("after call");
-  long long ref = (sign < 0) ? -(long long)(v & 0x7FFFFFFFFFFFFFFFul) : (long long)(v & 0x7FFFFFFFFFFFFFFFul);
-  int fits = alldig && !over && v <= 0x7FFFFFFFFFFFFFFFul && ref >= -2147483648ll && ref <= 2147483647ll;
   if (!verif_thrown)
-    __CPROVER_assert(fits && (long long)r == ref, "C09: parseInt: a returned value is the exact value of S* [+-]? digits S* (no silent truncation to 32 bits)");
+    __CPROVER_assert(ABS_E != ERANGE && (long)r == ABS_LV, "C09: parseInt: a returned value is exactly the value strtol delivered (no silent truncation to 32 bits, no ERANGE ignored)");
   else
-    __CPROVER_assert(!fits && verif_throw_type == VT_NumberFormatException, "C09: parseInt throws NumberFormatException exactly for non-numerals and numerals that do not fit int");
+    __CPROVER_assert(verif_throw_type == VT_NumberFormatException, "C09: parseInt reports failure by NumberFormatException");
 }
